@@ -348,7 +348,8 @@ def cases(draw):
         elif kind == 8:
             rets = [draw(st.sampled_from(DELTAS)), 'raise']
         else:
-            rets = [draw(st.sampled_from(['hang', True]))]
+            # non-numbers and the infinite delta ("never"): not rescheduled
+            rets = [draw(st.sampled_from(['hang', True, 'inf', 'inf']))]
         t = {'rets': rets}
         tasks[str(tid)] = t
         if draw(st.integers(0, 2)) == 0:
